@@ -57,7 +57,7 @@ chk("C09", "proof",
     "partial evaluation of typed THIR arms (case analysis) + guard dominance rule with constant folding", "DESIGN.md 5/C09")
 chk("C10", "proof",
     "For every (evaluator, documented name/alias/constant/postfix operator): the chain name -> token -> node -> operation, composed from the extracted lexer/parser/eval tables, equals the reference meaning (library-backed rows and exact functions; argument order for root/log/atan2/pow/mod); source constants pi/180 and 180/pi are checked numerically; the three gamma copies and the Lambert-W copies must agree (sibling rule).",
-    "declined: accuracy of Lanczos gamma, convergence of Lambert W as such, value of ilog, 'within 1' for eval_i64 real-valued functions (only routing / sibling agreement); known finding: Lambert W has no convergence exit and a constant start (its structural necessary condition fails; w(100) is off by 1.2e-3) in all three copies",
+    "declined: accuracy of Lanczos gamma, convergence of Lambert W as such, value of ilog, 'within 1' for eval_i64 real-valued functions (only routing / sibling agreement); the structural necessary condition of Lambert W's convergence (exit test or x-dependent start) is an obligation",
     "THIR chain composition over the whole vocabulary + sibling cross-check", "DESIGN.md 5/C10")
 chk("C11", "proof",
     "Every aggregate arm is summarised as a fold (seed, step, finish) and compared with the admissible schemas: min/max with the identity seed or first-element seed, avg = checked sum / len, med = collect, sort with an ascending total comparator, middle / mean of the two middle elements; gcd helper has the Euclid transformer (a,b) := (b, a mod b) and finish |a|; arguments are evaluated with `?`; parser side: empty list -> Err, avg() -> 0. Order independence follows from commutativity/associativity + sort.",
